@@ -44,7 +44,8 @@ TRUSTED = [
     "gradient boosting), acquisition values, scipy fmin_l_bfgs_b, pymoo, ConfigSpace sampling, quasi-random sequences, libm log10 / pow, "
     "binary64 rounding; membership is established by the final decode (C02_decode_in_space holds for EVERY transformed vector)",
     "ConfigSpace decides which hyperparameters are active, whether a forbidden clause is violated and whether the active "
-    "sub-configuration is valid (deactivate_inactive_hyperparameters / Configuration); the oracle receives these as booleans",
+    "sub-configuration is valid (its condition objects' satisfied_by_value, parents first; ForbiddenClause.is_forbidden_value and Configuration "
+    "on the active sub-configuration); the oracle receives these as booleans",
     "L-BFGS-B returns a point inside the bounds it is given (needed only for purely categorical spaces, where Optimizer._tell does not clip)",
     "the option lists are read from the source by ast and from Options.v by a regular expression (harness)",
     "c09.py helpers: dimension encoding, tokens for non-numeric categories, tolerances for real coordinates",
@@ -365,10 +366,33 @@ def hp_decl(hp):
     raise ValueError("unsupported hyperparameter class %s" % type(hp).__name__)
 
 
+def active_names(space, cfg):
+    """Which hyperparameters are active in the full dictionary cfg: a hyperparameter is active when every condition on it is satisfied
+    by the value of an ACTIVE parent (evaluated by ConfigSpace's own condition objects, parents first).  The values of inactive
+    hyperparameters (the canonical placeholders) play no role."""
+    memo = {}
+
+    def sat(cond):
+        if hasattr(cond, "components"):  # conjunctions
+            r = [sat(c) for c in cond.components]
+            return all(r) if type(cond).__name__ == "AndConjunction" else any(r)
+        pname = cond.parent.name
+        return act(pname) and bool(cond.satisfied_by_value({pname: cfg[pname]}))
+
+    def act(name):
+        if name not in memo:
+            memo[name] = True  # (cycles do not exist in a valid space)
+            memo[name] = all(sat(c) for c in space.parent_conditions_of[name])
+        return memo[name]
+
+    return {n for n in space.keys() if act(n)}
+
+
 def judge_config(space, cfg):
-    """One configuration the run-function received -> (clause code by the extracted oracle ok_C02, detail)."""
+    """One configuration the run-function received -> (clause code by the extracted oracle ok_C02, detail).
+    ConfigSpace decides: activity (its condition objects), forbidden clauses (is_forbidden_value on the ACTIVE sub-configuration),
+    validity (Configuration of the active sub-configuration)."""
     import ConfigSpace as CS
-    from ConfigSpace.util import deactivate_inactive_hyperparameters
 
     names = list(space.keys())
     names_ok = isinstance(cfg, dict) and sorted(cfg.keys()) == sorted(names)
@@ -376,13 +400,18 @@ def judge_config(space, cfg):
     why = ""
     if names_ok:
         try:
-            with warnings.catch_warnings():
-                warnings.simplefilter("ignore")
-                sub = deactivate_inactive_hyperparameters(dict(cfg), space)
-            active = set(dict(sub).keys())
+            active = active_names(space, cfg)
+            sub = {n: cfg[n] for n in names if n in active}
+            hit = [str(fc) for fc in space.forbidden_clauses if fc.is_forbidden_value(sub)]
+            if hit:
+                forbidden, why = True, "violates " + "; ".join(hit)
+            else:
+                with warnings.catch_warnings():
+                    warnings.simplefilter("ignore")
+                    CS.Configuration(space, values=sub)
         except CS.exceptions.ForbiddenValueError as e:
             forbidden, why = True, str(e)
-        except Exception as e:  # illegal value, inactive parent, ...
+        except Exception as e:  # illegal value, ...
             valid, why = False, "%s: %s" % (type(e).__name__, e)
     items = []
     for n in names:
@@ -398,6 +427,23 @@ def judge_config(space, cfg):
     return code, dict(why=why, inactive=sorted(set(names) - active))
 
 
+def placeholder_forbidden(space, cfg):
+    """the FULL dictionary (inactive hyperparameters carrying their canonical value) is refused by ConfigSpace as forbidden although the
+    active sub-configuration is not: the canonical inactive value of a conditional child coincides with a value a forbidden clause names"""
+    import ConfigSpace as CS
+    from ConfigSpace.util import deactivate_inactive_hyperparameters
+
+    try:
+        with warnings.catch_warnings():
+            warnings.simplefilter("ignore")
+            deactivate_inactive_hyperparameters(dict(cfg), space)
+        return False
+    except CS.exceptions.ForbiddenValueError:
+        return judge_config(space, cfg)[0] == 0
+    except Exception:
+        return False
+
+
 # ----------------------------------------------------------------------------------------------- search stream
 TREE = ("RF", "ET", "TB", "RS", "DUMMY")
 FAILS = ("none", "some", "first", "nan", "all", "const")
@@ -406,7 +452,7 @@ WHY = [("disentangled_std", "disentangled_std"), ("has to be a regressor", "not_
        ("n_estimtaors", "gbrt_n_estimators"), ("in1d", "numpy_in1d"), ("Gradient not implemented for MES", "mes_gradient"),
        ("not within the bounds", "tell_rejects_point"), ("Not all points are within the bounds", "tell_rejects_point"),
        ("Can only compute distance for values within", "point_outside_space"), ("scikit-garden", "missing_dependency"),
-       ("pvals", "boltzmann_nan")]
+       ("pvals", "boltzmann_nan")]  # + "forbidden_inactive_placeholder", decided in check_search
 
 
 def classify(msg):
@@ -437,6 +483,9 @@ def objective_fn(case, record):
         for v in job.parameters.values():
             if isinstance(v, (int, float)) and not isinstance(v, bool) and math.isfinite(v):
                 s += math.atan(float(v))
+        for name, val in (case.get("favor") or {}).items():  # bonus for declared values
+            if job.parameters.get(name) == val:
+                s += 3.0
         return s + 0.01 * ((i * 7) % 5)
 
     return run
@@ -478,6 +527,11 @@ def check_search(case):
     from deephyper.evaluator import Evaluator
     from deephyper.skopt.utils import check_x_in_space
 
+    import random as _random
+
+    # libraries that draw from the global generators (pymoo's GA, ...) must not make a case depend on what the worker ran before
+    np.random.seed(case["seed"] % (2 ** 32))
+    _random.seed(case["seed"])
     sig = case_sig(case)
     desc = ["search=%s" % case["search"], "kind=%s" % sig["kind"], "fail=%s" % case.get("fail", "none"), "workers=%d" % case["workers"]]
     if case["search"] in ("CBO", "EDS"):
@@ -510,19 +564,34 @@ def check_search(case):
         why = classify(str(err))
         if why == "missing_dependency":
             return dict(res, desc=desc + ["skipped_missing_dependency=%s" % case.get("surrogate")])
+        # a configuration outside the space that was handed out before the failure is the more precise verdict
+        for i, cfg in enumerate(record):
+            code, det = judge_config(pb.space, cfg)
+            if code != 0:
+                clause = CLAUSES.get(code, "clause%d" % code)
+                return dict(res, ok=False, clause=clause, sig=dict(sig, clause=clause), nontrivial=True,
+                            detail=dict(index=i, config=repr(cfg), then_search_raised="%s: %s" % (type(err).__name__, str(err)[:300]), **det))
+        if type(err).__name__ == "ForbiddenValueError" and any(placeholder_forbidden(pb.space, cfg) for cfg in record):
+            why = "forbidden_inactive_placeholder"
         clause = "search_raises:" + type(err).__name__
         return dict(res, ok=False, clause=clause, sig=dict(sig, clause=clause, why=why), nontrivial=True,
                     detail=dict(error="%s: %s" % (type(err).__name__, str(err)[:600]), evaluated=len(record), last=repr(record[-3:])))
     # ---- every configuration the run-function received ----
     space = pb.space
+    n_inactive_model = 0
     for i, cfg in enumerate(record):
         code, det = judge_config(space, cfg)
+        if det["inactive"] and i >= case.get("n_init", case.get("pop", 0)):
+            n_inactive_model += 1
         if code != 0:
             clause = CLAUSES.get(code, "clause%d" % code)
             return dict(res, ok=False, clause=clause, sig=dict(sig, clause=clause), nontrivial=True,
                         detail=dict(index=i, config=repr(cfg), phase="initial" if i < case.get("n_init", 0) else "model", **det))
     if len(record) < case["evals"]:
         return dict(res, ok=False, clause="too_few_evaluations", sig=dict(sig, clause="too_few_evaluations"), detail=dict(evaluated=len(record)))
+    if sig["constrained"]:
+        desc.append("inactive_after_initial_phase=%s" % ("0" if n_inactive_model == 0 else "1-3" if n_inactive_model <= 3 else "4+"))
+        desc.append("forbidden_clauses=%d" % len(case["problem"].get("forbiddens", [])))
     nt = sig["constrained"] or case["search"] != "CBO" or case.get("design") != "random"
     # ---- CBO: the same points in the optimizer's own Space, judged by the model's in_space / check_x ----
     if case["search"] in ("CBO", "EDS") and getattr(search, "_opt", None) is not None:
@@ -643,6 +712,62 @@ def gen_constrained(rng):
     return dict(kind="constrained", hps=hps, conditions=conds, forbiddens=forb)
 
 
+def inexact_log_lower(rng):
+    """a lower bound of a log-uniform float whose round trip through LogN(10) comes back ABOVE it (10 ** log10(low) > low): the
+    clip of Real.inverse_transform does not repair it, only the canonicalisation of inactive values does.  Chosen by TESTING."""
+    for _ in range(1000):
+        lo = rng.randint(1, 9) * 10.0 ** rng.randint(-6, -1) if rng.random() < 0.7 else round(rng.uniform(1, 10), rng.choice([1, 2])) * 10.0 ** rng.randint(-6, -1)
+        with np.errstate(all="ignore"):
+            back = float(10 ** (np.log10(np.asarray([lo], dtype=float)) / np.log10(10))[0])
+        if back > lo:
+            return lo
+    return 0.002
+
+
+def gen_conditional_children(rng):
+    """conditions only: the children are a log-uniform float with an inexact lower bound, a log-uniform integer, a uniform float, a
+    categorical; the parent value that deactivates them is favoured by the objective (favor)"""
+    lo = inexact_log_lower(rng)
+    lo2 = inexact_log_lower(rng)
+    hps = [dict(kind="cat", name="opt", choices=["sgd", "adam", "lion"]),
+           dict(kind="float", name="mom", lo=lo, hi=lo * 10.0 ** rng.randint(1, 3) * rng.choice([1.0, 4.5]), log=True),
+           dict(kind="int", name="layers", lo=1, hi=8),
+           dict(kind="float", name="lr", lo=lo2, hi=lo2 * 1000.0, log=True),
+           dict(kind="int", name="warm", lo=rng.choice([2, 3, 10]), hi=5000, log=True),
+           dict(kind="float", name="decay", lo=0.1, hi=0.7),
+           dict(kind="cat", name="nest", choices=["no", "yes"])]
+    conds = [dict(child="mom", parent="opt", op="eq", value="sgd"),
+             dict(child="warm", parent="opt", op="in", value=["sgd", "lion"]),
+             dict(child="nest", parent="opt", op="neq", value="adam"),
+             dict(child="decay", parent="layers", op=rng.choice(["gt", "lt"]), value=4)]
+    if rng.random() < 0.5:  # the unconditional log-uniform float becomes a child too
+        conds.append(dict(child="lr", parent="layers", op="gt", value=2))
+    return dict(kind="constrained", hps=hps, conditions=conds, forbiddens=[]), {"opt": "adam"}
+
+
+def gen_forbidden(rng, mixed):
+    """forbidden clauses over hyperparameters WITHOUT conditional children (optionally next to conditions); the objective favours the
+    forbidden values one by one, so that mutations of good parents land on the forbidden combination"""
+    hps = [dict(kind="cat", name="prec", choices=["fp32", "bf16", "fp16"]),
+           dict(kind="ord", name="batch", choices=[16, 32, 64, 128]),
+           dict(kind="float", name="lr", lo=1e-4, hi=0.1, log=True),
+           dict(kind="int", name="layers", lo=1, hi=rng.choice([3, 6]))]
+    conds = []
+    forb = [[["prec", "fp16"], ["batch", 128]]]
+    favor = {"prec": "fp16", "batch": 128}
+    if rng.random() < 0.5:
+        forb.append([["layers", 1], ["prec", ["bf16", "fp16"]]])
+        favor["layers"] = 1
+    if mixed:
+        hps += [dict(kind="cat", name="sched", choices=["none", "cos", "step"]), dict(kind="int", name="period", lo=2, hi=50),
+                dict(kind="float", name="gamma", lo=inexact_log_lower(rng), hi=0.99, log=True)]
+        conds = [dict(child="period", parent="sched", op="in", value=["cos", "step"]), dict(child="gamma", parent="sched", op="eq", value="step")]
+        forb.append([["sched", "cos"], ["batch", 16]])        # a clause over a parent and a childless hyperparameter
+        if rng.random() < 0.5:
+            forb.append([["period", 50], ["prec", "fp32"]])   # a clause over a conditional child (not its canonical inactive value: F48)
+    return dict(kind="constrained", hps=hps, conditions=conds, forbiddens=forb), favor
+
+
 def pairwise_rows(rng, axes, extra=0):
     """Greedy seeded pairwise cover of the product of the axes (dict name -> values); `extra` random rows are appended."""
     names = list(axes)
@@ -700,6 +825,27 @@ def gen_search(quick_n, thorough_seeds=2):
             cases.append(dict(search="CBO", surrogate=rng.choice(TREE), acq=rng.choice(opts["acq"]), strategy=rng.choice(opts["strategies"]),
                               design="random", problem=gen_constrained(rng), fail=rng.choice(FAILS), workers=rng.choice([1, 2, 3, 4]),
                               seed=rng.randint(0, 2 ** 20), evals=rng.randint(12, 20), n_init=rng.randint(3, 6), n_points=200))
+        # conditional children that do not round-trip exactly (log-uniform floats with inexact lower bounds, ...): tree surrogates, enough
+        # model-based proposals with the children inactive (the objective favours the deactivating parent value)
+        nk = 8 if tier == "quick" else 3 if tier == "search" else 48
+        for i in range(nk):
+            pbd, favor = gen_conditional_children(rng)
+            cases.append(dict(search="CBO", surrogate=["ET", "RF", "ET", "TB"][i % 4], acq=rng.choice(["UCB", "UCBd", "EI", "gp_hedge"]),
+                              strategy=["cl_max", "topk", "qUCB", "boltzmann", "cl_min", "cl_mean", "qUCBd", "cl_max"][i % 8],
+                              design="random", problem=pbd, favor=favor, fail=rng.choice(["none", "none", "some"]), workers=[1, 3, 2, 4][i % 4],
+                              seed=rng.randint(0, 2 ** 20), evals=rng.randint(24, 32), n_init=rng.randint(4, 6), n_points=200))
+        # forbidden clauses over childless hyperparameters / mixed with conditions: evolution phase of RegularizedEvolution (small
+        # population, many cheap evaluations), RandomSearch, CBO
+        nf = 6 if tier == "quick" else 2 if tier == "search" else 40
+        for i in range(nf):
+            pbd, favor = gen_forbidden(rng, mixed=i % 2 == 1)
+            cases.append(dict(search="RegEvo", problem=pbd, favor=favor, fail=rng.choice(["none", "none", "some"]), workers=rng.choice([1, 2, 4]),
+                              seed=rng.randint(0, 2 ** 20), evals=rng.randint(80, 150), pop=rng.randint(5, 10), sample=rng.choice([2, 3])))
+            if i % 3 == 0:
+                pbd, favor = gen_forbidden(rng, mixed=i % 2 == 0)
+                cases.append(dict(search="Random", problem=pbd, favor=favor, fail="none", workers=rng.choice([1, 4]), seed=rng.randint(0, 2 ** 20), evals=rng.randint(60, 100)))
+                cases.append(dict(search="CBO", surrogate=rng.choice(["ET", "RF"]), acq="UCB", strategy=rng.choice(["cl_max", "qUCB", "topk"]), design="random",
+                                  problem=pbd, favor=favor, fail="none", workers=2, seed=rng.randint(0, 2 ** 20), evals=24, n_init=5, n_points=200))
         # the other search classes
         no = 2 if tier == "quick" else 1 if tier == "search" else 14
         for i in range(no):
@@ -995,13 +1141,22 @@ def check_branches(case):
     from deephyper.skopt.learning import RandomForestRegressor
     from deephyper.skopt.space import Space
 
-    dims = case["dims"]
     m = model()
-    desc = ["surrogate=%s" % case["surrogate"], "design=%s" % case["design"], "ndims=%d" % len(dims)]
+    cs_space = None
+    if "problem" in case:  # a conditional space as CBO builds it (random design, no caller's points)
+        from deephyper.hpo._problem import convert_to_skopt_space
+
+        cs_space = build_problem(case["problem"]).space
+        space0 = convert_to_skopt_space(cs_space, surrogate_model="RF")
+        dims = [c09.describe_dim(dm) for dm in space0.dimensions]
+    else:
+        dims = case["dims"]
+    desc = ["surrogate=%s" % case["surrogate"], "design=%s" % case["design"], "ndims=%d" % len(dims), "conditional=%s" % (cs_space is not None)]
     res = dict(ok=True, kind="oracle", clause="", sig={"surrogate": case["surrogate"]}, nontrivial=False, desc=desc)
+    n_canon_checked = 0
     with warnings.catch_warnings(), threadpool_limits(limits=1):
         warnings.simplefilter("ignore")
-        space = Space([c09.make_dim(d) for d in dims])
+        space = Space([c09.make_dim(d) for d in dims]) if cs_space is None else space0
         est = "DUMMY" if case["surrogate"] == "DUMMY" else RandomForestRegressor(n_estimators=4, random_state=case["seed"])
         rs = np.random.RandomState(case["seed"])
         user = space.rvs(case["n_user"], random_state=rs) if case["n_user"] else []
@@ -1024,6 +1179,20 @@ def check_branches(case):
                     out.append(q(Fraction(-1)))
             return out
 
+        def not_canonical(row):
+            """conditional space: the point must carry the canonical value of every inactive hyperparameter (exact values; the activity
+            flags are ConfigSpace's) - None if it does, else a description"""
+            names = opt.space.dimension_names
+            try:
+                sub = active_names(cs_space, dict(zip(names, row)))
+            except Exception as e:
+                return "%s: %s" % (type(e).__name__, str(e)[:200])
+            active = [n in sub for n in names]
+            rq = rowq(row)
+            if [unq(a) for a in m.call(F_CANON_ROW, [msp, active, rq])] != [unq(a) for a in rq]:
+                return "inactive %s in %r" % ([n for n, a in zip(names, active) if not a], list(row))
+            return None
+
         def state():
             nxt = getattr(opt, "_next_x", None)
             return [int(opt._n_initial_points), [rowq(r) for r in opt._initial_samples], opt.base_estimator_ is None, len(opt.models),
@@ -1037,7 +1206,9 @@ def check_branches(case):
             if op[0] == "ask":
                 n, strat = op[1], op[2]
                 st = state()
-                dec = [rowq(r) for r in opt.space.inverse_transform(opt._last_X)] if hasattr(opt, "_last_X") else []
+                # the implementation's own decode of the cached candidates (library oracle): inverse_transform, then - as the repaired
+                # one-shot branches do - deactivate_inactive_dimensions
+                dec = [rowq(opt.space.deactivate_inactive_dimensions(list(r))) for r in opt.space.inverse_transform(opt._last_X)] if hasattr(opt, "_last_X") else []
                 sig = {"surrogate": case["surrogate"], "strategy": strat, "n": "none" if n is None else "1" if n == 1 else "many"}
                 try:
                     ret = opt.ask(n_points=n, strategy=strat)
@@ -1056,6 +1227,12 @@ def check_branches(case):
                     return dict(res, ok=False, clause=clause, sig=dict(sig, clause=clause), detail=dict(step=step, op=op, returned=repr(rows)[:600], state=repr(st)[:600]))
                 if post != obs():
                     return dict(res, ok=False, kind="corr", clause="ask_post_state", sig=dict(sig, clause="ask_post_state"), detail=dict(step=step, op=op, model=post, impl=obs()))
+                if cs_space is not None:
+                    for r in rows:
+                        n_canon_checked += 1
+                        why = not_canonical(r)
+                        if why:
+                            return dict(res, ok=False, clause="ask:inactive_not_canonical", sig=dict(sig, clause="ask:inactive_not_canonical"), detail=dict(step=step, op=op, why=why))
                 pending.extend(rows)
             else:
                 if not pending:
@@ -1076,6 +1253,11 @@ def check_branches(case):
                 post = m.call(F_TELL_POST, [st, k_ok, True])
                 if post != obs():
                     return dict(res, ok=False, kind="corr", clause="tell_post_state", detail=dict(step=step, model=post, impl=obs(), k_ok=k_ok))
+                if cs_space is not None and getattr(opt, "_next_x", None) is not None:
+                    n_canon_checked += 1
+                    why = not_canonical(opt._next_x)  # the point the next ask() hands out
+                    if why:
+                        return dict(res, ok=False, clause="next_x_not_canonical", sig={"surrogate": case["surrogate"], "clause": "next_x_not_canonical"}, detail=dict(step=step, why=why))
                 pending = []
     res["desc"] = desc + ["branch=%s" % b for b in sorted(seen_branches)]
     res["nontrivial"] = len(seen_branches) >= 2
@@ -1104,6 +1286,13 @@ def gen_branches(count):
                     ops.append(["tell", rng.choice(["ok", "ok", "fail_some", "fail_all", "const"])])
                     if rng.random() < 0.5:
                         ops.insert(len(ops) - 1, ["ask", rng.choice([2, 3]), rng.choice(["cl_min", "topk", "qLCB"])])
+            if i % 4 == 3:  # a conditional space: many fits, every stored / returned point must be canonical
+                pbd = gen_conditional_children(rng)[0] if i % 8 == 3 else gen_constrained(rng)
+                cops = []
+                for _ in range(rng.randint(5, 9)):
+                    cops += [["ask", rng.choice([None, 1, 2, 3, 4]), rng.choice(["cl_min", "cl_max", "topk", "boltzmann", "qLCB", "qLCBd"])], ["tell", rng.choice(["ok", "ok", "fail_some"])]]
+                yield dict(problem=pbd, surrogate="RF", design="random", n_init=rng.choice([1, 2, 3]), n_user=0, seed=rng.randint(0, 2 ** 20), ops=cops)
+                continue
             n_init = rng.choice([0, 1, 2, 3, 5]) if i % 10 == 0 else rng.choice([1, 2, 3, 5])
             if n_init == 0:  # nothing to design: only the random generator copes with 0 points
                 yield dict(dims=dims, surrogate="RF", design="random", n_init=0, n_user=0, seed=rng.randint(0, 2 ** 20), ops=ops)
@@ -1118,6 +1307,8 @@ def shrink_branches(case):
     for i in range(len(ops)):
         if len(ops) > 1:
             yield dict(case, ops=ops[:i] + ops[i + 1:])
+    if "problem" in case:
+        return
     dims = case["dims"]
     for j in range(len(dims)):
         if len(dims) > 1:
@@ -1133,8 +1324,6 @@ HCLASS = {"int": 0, "float": 0, "cat": 1, "ord": 2, "const": 3}
 
 
 def check_canon(case):
-    from ConfigSpace.util import deactivate_inactive_hyperparameters
-
     import deephyper.hpo._random as m_random
     import deephyper.hpo._regevo as m_regevo
     from deephyper.hpo._problem import convert_to_skopt_space
@@ -1186,7 +1375,7 @@ def check_canon(case):
         code, det = judge_config(cs_space, dict(zip(names, [getattr(v, "tolist", lambda v=v: v)() for v in impl_row])))
         if code != 0:
             return dict(res, ok=False, kind="oracle", clause=CLAUSES.get(code, str(code)), detail=dict(row=repr(impl_row), **det))
-        sub = dict(deactivate_inactive_hyperparameters(dict(zip(names, impl_row)), cs_space))
+        sub = active_names(cs_space, dict(zip(names, impl_row)))
         if set(sub) != set(act_d):
             return dict(res, ok=False, clause="activity_changed_by_canonicalisation", detail=dict(before=sorted(act_d), after=sorted(sub)))
     # 4. Space.rvs (the candidates of every model-based step and the random initial points): members, inactive values canonical
